@@ -43,7 +43,7 @@ Qed.
 Lemma pres_injectHtmlAttributes tag consume : preserves P (injectHtmlAttributes tag consume).
 Proof.
   unfold injectHtmlAttributes. destruct tag; [apply pres_ret|]. pr; try (pres_mod HP; fail).
-  all: apply pres_modify; intros s1 Hs1;
+  all: apply pres_modify; intros s1 Hs1; unfold register_or_report;
     match goal with |- P (if ?c then _ else _) => destruct c eqn:Ec end; fo HP;
     apply orb_false_iff in Ec as [_ Ec]; apply fo_ids_cons; auto.
 Qed.
@@ -69,8 +69,10 @@ Lemma pres_if_repls p f r : preserves_if P (fun s => replacementDefFilter_skip (
                                          (replacements_setDefinition p f r).
 Proof.
   intros s a s' H Hs Hg. unfold replacements_setDefinition in H.
-  destruct (parse_regex _ _ _); try discriminate. inversion H; subst.
-  match goal with |- P (if ?c then _ else _) => destruct c end; apply fo_repls; auto.
+  destruct (parse_regex _ _ _); try discriminate.
+  - inversion H; subst.
+    match goal with |- P (if ?c then _ else _) => destruct c end; apply fo_repls; auto.
+  - eapply (pres_log_msg _ HP); eauto.
 Qed.
 
 Lemma pres_if_dblocks n v : preserves_if P (fun s => blockDefFilter_skip (s_mode s) = false)
